@@ -87,7 +87,13 @@ func runSession(r Round) *outcome {
 
 	rc := newRace("session-manager")
 	for i := 0; i < r.Closers; i++ {
-		rc.spin(kindCloser, "Close", func() { sm.Close() })
+		rc.spin(kindCloser, "Close", func() {
+			sm.Close()
+			if mine.get() != 1 { // Close returned => released, for every caller
+				rc.fail("C16/session-manager/close-returned-before-cleanup-finished",
+					fmt.Sprintf("a SessionManager.Close call returned with the registered cleanup handler run %d times", mine.get()))
+			}
+		})
 	}
 	var late *vkit.BufConn
 	last := clients[len(clients)-1]
